@@ -115,6 +115,52 @@ def run(ctx, widen=False):
             if not check(ctx, e, deg, "product", [e]):
                 return
             ctx.nontrivial(("product", str(e)))
+    model_correspondence(ctx)
+
+
+def model_correspondence(ctx):
+    """`_get_leading_terms` (the real function, on sympy Poly objects in 1-3 generators) vs the Lean `leadingTerms` on the
+    exponent vectors `Poly.terms()` lists; also records whether the univariate lists are strictly decreasing (the contract the
+    theorem C19_univariate assumes)"""
+    import sympy
+    from bartiq.analysis import _get_leading_terms
+
+    from .. import model
+
+    rng = ctx.rng
+    gens_all = sympy.symbols("x y z")
+    reqs, impl, inputs = [], [], []
+    for i in range(ctx.n(400, 6000)):
+        ng = rng.choice([1, 1, 2, 3])
+        gens = gens_all[:ng]
+        nterms = rng.randint(1, 6)
+        e = sympy.Integer(0)
+        for _ in range(nterms):
+            e += rng.choice([1, 2, -3, sympy.Symbol("a")]) * sympy.prod([g ** rng.randint(0, 4) for g in gens])
+        if rng.random() < 0.3:
+            e = e * (gens[0] + 1) ** rng.randint(1, 2)
+        try:
+            poly = sympy.Poly(e, *gens)
+        except Exception:
+            continue
+        if poly.is_zero:
+            continue
+        terms = [t for t, _ in poly.terms()]
+        if ng == 1:
+            ctx.stats["univariate_term_lists"] += 1
+            if any(a[0] <= b[0] for a, b in zip(terms, terms[1:])):
+                ctx.disagreement("Poly.terms() lists univariate exponents in strictly decreasing order (contract of C19_univariate)", {"expression": str(e)}, "decreasing", str(terms))
+        lead = _get_leading_terms(poly)
+        impl.append(sorted(tuple(sympy.Poly(t, *gens).monoms()[0]) for t in lead))
+        reqs.append("leading " + " ".join("(" + " ".join(map(str, t)) + ")" for t in terms))
+        inputs.append((str(e), [str(g) for g in gens]))
+    for (es, gs), rq, im, r in zip(inputs, reqs, impl, model.run_driver(reqs)):
+        ctx.stats["model_vs_impl_compared"] += 1
+        mv = sorted(tuple(int(v) for v in t) for t in r[1]) if r[0] == "ok" else r
+        if mv != im:
+            ctx.disagreement("_get_leading_terms vs Bartiq.leadingTerms", {"expression": es, "generators": gs, "request": rq}, str(mv), str(im))
+        elif len(im) > 1:
+            ctx.stats["model_vs_impl_multivariate_several_terms"] += 1
 
 
 def replay(payload):
